@@ -266,6 +266,11 @@ def run(ck):
         bump_on_reuse = bool(some) and bool(inc) and bool(stores) and T.t2_all_exits(ve, [x for _, x in some], stores) is None
         if bump_on_reuse:
             ck.ok("4", "T2-all-exits", ve, "reuse=>new-generation", "every path that reuses a free slot stores increment_version() of its token back into the slot", site=ve.where())
+            # .. and there is no third way out: a slot handed out is either freshly pushed or freshly bumped (a slot
+            # remembered from an earlier release - a "recycled" index, a free list - is a reuse like any other)
+            pushes = [cs.bb for cs in T.calls(ve, name=("push", "push_back", "insert", "resize_with", "extend")) if cs.args and T.path_has(ve, cs.args[0], ".sources") and not ve.is_cleanup(cs.bb)]
+            bad = T.t2_all_exits(ve, [0], stores + pushes)
+            ck.verdict(bad is None, "4", "T2-all-exits", ve, "handed-out-slot=pushed-or-bumped", "every slot vacant_entry hands out was just pushed or just given a new generation", "vacant_entry can hand out an existing slot without giving it a new generation (a slot remembered from an earlier release): tokens and already collected events of the previous occupant match the new source", site=ve.where(), path=path_descr(ve, bad) if bad else None)
         else:
             # accepted alternative idiom: the generation is bumped whenever a slot is *released*;
             # then every site that empties a slot must be followed (or preceded) by the bump
@@ -362,6 +367,11 @@ def run(ck):
     import_n = common.import_results(ck, __import__("props.C05", fromlist=["x"]), "5", "Timer", "5")
     common.import_results(ck, __import__("props.C05", fromlist=["x"]), "6", "Timer", "5")
     common.import_results(ck, __import__("props.C05", fromlist=["x"]), "4", "Timer", "5")
+    # a re-registration that draws a new token also programs it into the poller (no "interest unchanged" shortcut: the
+    # kernel would keep reporting the old key, which by then belongs to a sibling) - shared with C16.3; and a Reregister /
+    # Disable / Remove answer is applied when that source's processing ends, not at the end of the batch (C09.3)
+    common.import_results(ck, __import__("props.C16", fromlist=["x"]), "3", "Generic", "5")
+    common.import_results(ck, __import__("props.C09", fromlist=["x"]), "3", "dispatch_events", "5")
     ck.floor("6", "wrapper process_events forwarding sites", n, 8 if ck.has("executor") and ck.has("stream") and ck.has("signals") else 5)
 
     token_factory_rules(ck, "7")
